@@ -866,7 +866,11 @@ func (c *Ctx) isGreatestKeyCall(u *FuncUnit, call *ast.CallExpr, depth int) bool
 				hc = c.defCallOf(u, lv)
 			}
 		}
-		return hc != nil && m.calleeName(hc) == "maximum" && len(hc.Args) == 1 && c.isTreeRoot(hc.Args[0])
+		if hc == nil {
+			return false
+		}
+		op, ok := m.helperOperand(hc, "maximum")
+		return ok && c.isTreeRoot(op)
 	}
 	cu := m.calleeUnit(call)
 	if cu == nil || cu.Body == nil || cu.Lit != nil {
